@@ -12,7 +12,7 @@ import (
 )
 
 var htmlQuick = []Mix{
-	{Gen: "corpus"}, {Gen: "bytes"}, {Gen: "trunc"},
+	{Gen: "corpus"}, {Gen: "bytes"}, {Gen: "padded"}, {Gen: "trunc"},
 	{Gen: "atoms", Dict: "htmlbytes", K: 4},
 	{Gen: "atoms", Dict: "htmlfull", K: 2},
 	{Gen: "seq", Dict: "htmlfull", N: 300000},
@@ -22,7 +22,7 @@ var htmlQuick = []Mix{
 }
 
 var htmlThorough = []Mix{
-	{Gen: "corpus"}, {Gen: "bytes"}, {Gen: "trunc"},
+	{Gen: "corpus"}, {Gen: "bytes"}, {Gen: "padded", N: 1}, {Gen: "trunc"},
 	{Gen: "atoms", Dict: "htmlbytes", K: 5},
 	{Gen: "atoms", Dict: "htmlfull", K: 3},
 	{Gen: "seq", Dict: "htmlfull", N: 4000000},
